@@ -718,7 +718,11 @@ impl IsoTime {
             nanosecond as u16,
         );
 
-        (days as i32, time)
+        // NOTE: a valid time duration spans up to 2^53 seconds (about 1.04e11 days), which an `i32`
+        // cannot hold. Saturate instead of wrapping: a date that many days away is out of range
+        // either way, and is rejected as such by the callers' date arithmetic.
+        let days = days.clamp(i64::from(i32::MIN), i64::from(i32::MAX)) as i32;
+        (days, time)
     }
 
     /// Difference this `IsoTime` against another and returning a `TimeDuration`.
